@@ -1,6 +1,6 @@
 CONFIG = dict(
     coqfiles=["Props/C06.v"],
-    n_quick=1600, n_thorough=60000, workers_quick=8,
+    n_quick=1200, n_thorough=60000, workers_quick=8,
     rule="(a) 92%: histories of 40 (5-40; thorough up to 120) operations Put/Get/PopFront/PushBack on the real HashingKeyLocationMap over the in-memory or the block-device backed record array "
          "(byte-slice device), tables of 1-7 records (12%: 101 records with keys searched so that their probe sequences meet), maxGet 1-4, maxPut 1-6, 2-6 keys, "
          "hash initialisation random or one of 0,1,FNV offset basis,2^63,2^64-1; puts in allocation order, at arbitrary live locations, at earlier locations again "
